@@ -319,7 +319,8 @@ func (c *Ctx) ruleGUIDFormat(rule string) {
 		c.R.Undecf(rule, name(fn), "format", c.Pos(fn.Pos()), "GUID text is produced by one expression", fmt.Sprintf("%d returns", len(rets)))
 		return
 	}
-	lang := c.stringLang(rets[0].Results[0], 0)
+	dv := c.deepViewOf(fn, 3)
+	lang := dv.strLang(rets[0].Results[0], dv.root, 0)
 	want := []struct {
 		digits int
 		field  string
@@ -339,7 +340,7 @@ func (c *Ctx) ruleGUIDFormat(rule string) {
 			if s.upper {
 				problems = append(problems, fmt.Sprintf("group %d is upper case", k+1))
 			}
-			if !guidFieldIs(s.val, w.field, w.lo, w.hi) {
+			if !guidOriginIs(s, w.field, w.lo, w.hi) {
 				problems = append(problems, fmt.Sprintf("group %d does not print %s%s", k+1, w.field, boundsStr(w.lo, w.hi)))
 			}
 			if k < 4 {
@@ -391,4 +392,19 @@ func guidFieldIs(v ssa.Value, field string, lo, hi int64) bool {
 		return ir.FieldID(sl.X) == M+"/efi/util.EFIGUID."+field
 	}
 	return ir.FieldID(v) == M+"/efi/util.EFIGUID."+field
+}
+
+// guidOriginIs: the hex group prints the given GUID field (byte range lo:hi of Data4).
+func guidOriginIs(s seg, field string, lo, hi int64) bool {
+	if s.origin == nil {
+		return guidFieldIs(s.val, field, lo, hi)
+	}
+	o := s.origin
+	if o.field != M+"/efi/util.EFIGUID."+field {
+		return false
+	}
+	if lo < 0 {
+		return o.blo < 0 || o.blo == 0 && o.bhi == int64(s.digits/2)
+	}
+	return o.blo == lo && o.bhi == hi
 }
